@@ -8,5 +8,5 @@ cp /repo/go.sum harness/go.sum
 [ -f checklib/pregen.py ] && python3 checklib/pregen.py
 (cd harness && go build -tags verif -o ../.work/bin/vh ./cmd/vh)
 .work/bin/vh probe lean/RV/Facts/Generated.lean .work/facts.json
-(cd lean && lake build RV driver)
+(cd lean && lake build RV driver $(ls RV/Props/*.lean | sed 's#/#.#g; s#\.lean$##'))
 echo setup-ok
